@@ -283,6 +283,25 @@ func genC10Race(seed uint64, part string) *Scenario {
 		sc := genC15(seed, "filler")
 		sc.Policy = "none"
 		return raceify(sc, r)
+	case "race-more":
+		// the other scenario families under the race detector: queue-after
+		// hand-overs, pop mode with late successors, several goroutines parked in
+		// Progress.Wait with many shutdown listeners, and the terminal path (pty)
+		var sc *Scenario
+		switch r.Intn(4) {
+		case 0:
+			sc = genC17(seed, "mixed")
+		case 1:
+			sc = genC06(seed, "pop")
+		case 2:
+			sc = genC02Waiters(seed)
+		default:
+			sc = genC04(seed, "pty", "C04")
+		}
+		sc.Fam = "C10/race-more"
+		sc.Policy = "none"
+		sc.Late = true
+		return raceify(sc, r)
 	case "race-nq":
 		pf.qKinds = []string{"zero", "one", "two"}
 	}
@@ -411,5 +430,9 @@ func (a *analysis) oracleC10Race() verdict {
 	if a.rr.stuckKind != "" {
 		return inconclusive("scenario did not finish (%s) in the race build; C01 owns hangs", a.rr.stuckKind)
 	}
-	return held(len(a.sc.Clients) >= 2)
+	ops := 0
+	for _, c := range a.sc.Clients {
+		ops += len(c)
+	}
+	return held(len(a.sc.Bars) > 0 && (len(a.sc.Clients)+len(a.sc.Waiters) >= 2 || ops >= 6))
 }
